@@ -25,6 +25,8 @@ const addr = "127.0.0.1:6379"
 type call struct {
 	kind     string
 	uid      string
+	subKind  string      // Receive kinds: subscribe | psubscribe | ssubscribe
+	confirm  atomic.Bool // Receive kinds: the server's subscription confirmation reached the client (OnSubscriptionHook)
 	returned atomic.Bool
 	err      atomic.Value // string
 	bad      atomic.Value // string: wrong value description
@@ -41,7 +43,29 @@ type scen struct {
 	seed    int64
 }
 
-var allKinds = []string{"Do", "Do", "DoUnsub", "DoMulti", "DoCache", "DoCacheWaiter", "Receive", "Blpop", "DoStream", "Dedicated", "DoMultiCache"}
+var allKinds = []string{"Do", "Do", "DoUnsub", "DoMulti", "DoCache", "DoCacheWaiter", "Receive", "Blpop", "DoStream", "Dedicated", "DoMultiCache", "ReceiveP", "ReceiveS"}
+
+// the three subscription registries of a connection: channels, patterns, sharded channels
+var subKindOf = map[string]string{"Receive": "subscribe", "ReceiveP": "psubscribe", "ReceiveS": "ssubscribe"}
+
+func subscribeCmd(client rueidis.Client, subKind, ch string) rueidis.Completed {
+	switch subKind {
+	case "psubscribe":
+		return client.B().Psubscribe().Pattern(ch).Build()
+	case "ssubscribe":
+		return client.B().Ssubscribe().Channel(ch).Build()
+	}
+	return client.B().Subscribe().Channel(ch).Build()
+}
+
+// hooked returns a context whose subscription hook records that the server confirmed a subscription of c's kind.
+func hooked(c *call) context.Context {
+	return rueidis.WithOnSubscriptionHook(context.Background(), func(s rueidis.PubSubSubscription) {
+		if s.Kind == c.subKind {
+			c.confirm.Store(true)
+		}
+	})
+}
 
 func (sc scen) String() string {
 	return fmt.Sprintf("%s failure=%s queue=%s scale=%d always=%v pending=%v", sc.name, sc.failure, sc.queue, sc.scale, sc.always, sc.kinds)
@@ -115,7 +139,7 @@ func runScenario(run *mon.Run, sc scen) {
 	var wg sync.WaitGroup
 	var closeReturned atomic.Bool
 	start := func(kind string, i int) {
-		c := &call{kind: kind, uid: fmt.Sprintf("hold-%s-%d", kind, i)}
+		c := &call{kind: kind, uid: fmt.Sprintf("hold-%s-%d", kind, i), subKind: subKindOf[kind]}
 		calls = append(calls, c)
 		wg.Add(1)
 		go func() {
@@ -148,13 +172,14 @@ func runScenario(run *mon.Run, sc scen) {
 			case "DoMultiCache":
 				rs := client.DoMultiCache(ctx, rueidis.CT(client.B().Get().Key("ck").Cache(), time.Minute), rueidis.CT(client.B().Get().Key("ck2-"+c.uid).Cache(), time.Minute))
 				err = checkStr(rs[0], "cv")
-			case "Receive":
-				// every other Receive is fully established (waiting for messages), the others are still waiting for the SUBSCRIBE reply
+			case "Receive", "ReceiveP", "ReceiveS":
+				// every other Receive is fully established (waiting for messages), the others are still waiting for the
+				// (P|S)SUBSCRIBE reply; the three kinds live in three separate registries of the connection
 				ch := "chan-" + c.uid
 				if i%2 == 0 {
 					ch = "established-" + fmt.Sprint(i)
 				}
-				err = client.Receive(ctx, client.B().Subscribe().Channel(ch).Build(), func(rueidis.PubSubMessage) {})
+				err = client.Receive(hooked(c), subscribeCmd(client, c.subKind, ch), func(rueidis.PubSubMessage) {})
 				if err == nil {
 					err = fmt.Errorf("receive returned nil without unsubscribe")
 				}
@@ -187,6 +212,17 @@ func runScenario(run *mon.Run, sc scen) {
 	}
 	connsBefore := srv.Conns(addr)
 	failedAt := time.Now()
+	// measured, not assumed: which Receive calls sit in their message loop (confirmed by the server, not returned) at the failure
+	for _, c := range calls {
+		if c.subKind == "" || c.returned.Load() {
+			continue
+		}
+		if c.confirm.Load() {
+			run.Observe("receive_in_message_loop_at_failure_"+c.subKind, 1)
+		} else {
+			run.Observe("receive_awaiting_confirmation_at_failure_"+c.subKind, 1)
+		}
+	}
 
 	// inject the failure
 	switch sc.failure {
@@ -234,12 +270,20 @@ func runScenario(run *mon.Run, sc scen) {
 			run.Observe("blocking_calls_left_waiting_on_silent_server", 1)
 			continue
 		}
+		if !c.returned.Load() && c.subKind != "" {
+			run.Violation("call-still-pending", fmt.Sprintf("%s|Receive(%s)", sc.failure, c.subKind), map[string]any{"scenario": sc.String(), "call": c.kind, "uid": c.uid,
+				"subscription_confirmed_before_failure": c.confirm.Load(), "waited_virtual": time.Since(failedAt).String()})
+			continue
+		}
 		if !c.returned.Load() {
 			run.Violation("call-still-pending", fmt.Sprintf("%s|%s", sc.failure, c.kind), map[string]any{"scenario": sc.String(), "call": c.kind, "uid": c.uid,
 				"waited_virtual": time.Since(failedAt).String()})
 			continue
 		}
 		run.Observe("pending_calls_returned", 1)
+		if c.subKind != "" && c.confirm.Load() {
+			run.Observe("receive_in_message_loop_returned_"+c.subKind, 1)
+		}
 		if b, _ := c.bad.Load().(string); b != "" {
 			run.Violation("wrong-reply", fmt.Sprintf("%s|%s", sc.failure, c.kind), map[string]any{"scenario": sc.String(), "call": c.kind, "detail": b})
 		}
@@ -293,14 +337,43 @@ func runScenario(run *mon.Run, sc scen) {
 		// and Close: calls pending at Close return, calls after Close fail with ErrClosing and send nothing
 		srv.Plan(&fakeredis.Rule{Name: "hold2", Match: fakeredis.MatchArg("hold2"), Action: fakeredis.Action{Stall: true}})
 		late := &call{kind: "Do-pending-at-Close", uid: "hold2-" + sc.name}
-		wg.Add(1)
-		go func() {
-			defer wg.Done()
-			err := client.Do(context.Background(), client.B().Arbitrary("VERIF.ECHO").Keys("k").Args(late.uid, "str").Build()).Error()
-			late.err.Store(fmt.Sprint(err))
-			late.returned.Store(true)
-		}()
-		synctest.Wait()
+		startLateDo := func() {
+			wg.Add(1)
+			go func() {
+				defer wg.Done()
+				err := client.Do(context.Background(), client.B().Arbitrary("VERIF.ECHO").Keys("k").Args(late.uid, "str").Build()).Error()
+				late.err.Store(fmt.Sprint(err))
+				late.returned.Store(true)
+			}()
+			synctest.Wait()
+		}
+		// ... and a Receive on the fresh connection, one subscription kind per scenario: started before the held command it
+		// sits in its message loop at Close, started after it (the server has stopped reading that connection) it still
+		// waits for the confirmation of its subscription at Close
+		lateRecv := &call{kind: "Receive-pending-at-Close", uid: "late-" + sc.name, subKind: []string{"subscribe", "psubscribe", "ssubscribe"}[int((sc.seed%3+3)%3)]}
+		startLateRecv := func() {
+			wg.Add(1)
+			go func() {
+				defer wg.Done()
+				err := client.Receive(hooked(lateRecv), subscribeCmd(client, lateRecv.subKind, "late-"+sc.name), func(rueidis.PubSubMessage) {})
+				lateRecv.err.Store(fmt.Sprint(err))
+				lateRecv.returned.Store(true)
+			}()
+			synctest.Wait()
+		}
+		if (sc.seed/3)%2 == 0 {
+			startLateRecv()
+			startLateDo()
+		} else {
+			startLateDo()
+			startLateRecv()
+		}
+		lateLoop := lateRecv.confirm.Load() && !lateRecv.returned.Load()
+		if lateLoop {
+			run.Observe("receive_in_message_loop_at_close_"+lateRecv.subKind, 1)
+		} else if !lateRecv.returned.Load() {
+			run.Observe("receive_awaiting_confirmation_at_close_"+lateRecv.subKind, 1)
+		}
 		go func() { client.Close(); closeReturned.Store(true) }()
 		time.Sleep(5 * time.Second)
 		synctest.Wait()
@@ -315,6 +388,12 @@ func runScenario(run *mon.Run, sc scen) {
 			run.Violation("call-still-pending", "Close|Do", map[string]any{"scenario": sc.String(), "call": "Do pending at Close"})
 		} else {
 			run.Observe("pending_at_close_returned", 1)
+		}
+		if !lateRecv.returned.Load() {
+			run.Violation("call-still-pending", "Close|Receive("+lateRecv.subKind+")", map[string]any{"scenario": sc.String(), "call": "Receive(" + lateRecv.subKind + ") pending at Close",
+				"in_message_loop": lateLoop})
+		} else if lateLoop {
+			run.Observe("receive_pending_at_close_returned", 1)
 		}
 	}
 	// after Close
@@ -360,7 +439,7 @@ func runScenario(run *mon.Run, sc scen) {
 func genScenarios(run *mon.Run) []scen {
 	rng := run.Rand("scenarios")
 	var out []scen
-	n := run.N(90, 2500)
+	n := run.N(98, 2500) // 13 kinds x 4 failures alone, then 46 mixes
 	for i := 0; i < n; i++ {
 		sc := scen{name: fmt.Sprintf("s%d", i), failure: []string{"kill", "stall", "cut", "close"}[i%4], seed: run.Seed*7919 + int64(i)}
 		switch rng.Intn(3) {
@@ -413,7 +492,7 @@ func fixKinds(sc *scen, _ *rand.Rand) {
 // C04: broken connections and Close never leave calls hanging.
 func TestC04(t *testing.T) {
 	run := mon.Start(t, "C04", "fault_enumeration",
-		"failure {connection killed (EOF), server stops answering (keep-alive ping + write timeout), connection cut in the middle of a frame, client.Close} x pending mix drawn from {sync/queued Do, DoMulti half answered, DoCache owner, DoCache waiter, DoMultiCache, Receive, BLPOP on the blocking pool, DoStream, Dedicated} "+
+		"failure {connection killed (EOF), server stops answering (keep-alive ping + write timeout), connection cut in the middle of a frame, client.Close} x pending mix drawn from {sync/queued Do, DoMulti half answered, DoCache owner, DoCache waiter, DoMultiCache, Receive on SUBSCRIBE / PSUBSCRIBE / SSUBSCRIBE (in its message loop or awaiting the confirmation), BLPOP on the blocking pool, DoStream, Dedicated} "+
 			"x queue {ring, flowbuffer with 2 or 16 slots (full queue)} x AlwaysPipelining; each history in a synctest bubble: after the failure every pending call must have returned within 8 virtual seconds, held commands must not succeed, the next call is served on a new connection id, "+
 			"calls after Close get ErrClosing and reach no server, and no goroutine of rueidis stays parked when the bubble ends; a case = (failure, queue, pending kinds)")
 	defer run.Finish()
@@ -446,5 +525,8 @@ func TestC04(t *testing.T) {
 			run.Sample(sc.String())
 		}
 	}
-	run.Require("pending_calls_returned", "pending_calls_got_error", "served_by_fresh_connection", "served_by_new_connection_id", "pending_at_close_returned", "calls_after_close")
+	run.Require("pending_calls_returned", "pending_calls_got_error", "served_by_fresh_connection", "served_by_new_connection_id", "pending_at_close_returned", "calls_after_close",
+		// a Receive of each registry (channels, patterns, sharded channels) was in its message loop when the connection failed / the client was closed
+		"receive_in_message_loop_at_failure_subscribe", "receive_in_message_loop_at_failure_psubscribe", "receive_in_message_loop_at_failure_ssubscribe",
+		"receive_in_message_loop_at_close_subscribe", "receive_in_message_loop_at_close_psubscribe", "receive_in_message_loop_at_close_ssubscribe")
 }
